@@ -19,6 +19,7 @@ TReset ==
   /\ wal' = << >> /\ gAck' = -1 /\ qAck' = -1 /\ dDict' = Empty /\ dCounter' = 0 /\ dFiles' = {} /\ dSeq' = -1
   /\ up' = TRUE /\ gCons' = -1 /\ fSeq' = -1
   /\ mDict' = Empty /\ mCounter' = 0 /\ mem' = {} /\ imm' = {} /\ immSeq' = -1 /\ gen' = 0 /\ ifl' = NoIfl /\ pendAck' = FALSE
+  /\ dSer' = {} /\ dIdx' = {} /\ mSer' = {} /\ mIdx' = {} /\ iSer' = {} /\ iIdx' = {} /\ idxPhase' = "idle"
 
 TAppend == Ev("Append") /\ AppendEntry(Line.name)
 TReplicaStep == Ev("ReplicaStep") /\ ReplicaStep
@@ -33,7 +34,22 @@ TRecover == Ev("Recover") /\ Recover
 TLogRollback == Ev("LogRollback") /\ LogRollback(Line.gcons, Line.gack)
 \* steps without an effect on the modelled state
 TSyncGC == Ev("SyncGC") /\ SyncGC
-TStutter == (Ev("IndexFlush") \/ Ev("Note")) /\ UNCHANGED vars
+\* Shard.FlushIndex observed through the kv seam: prepare, then one IdxCommit per manifest commit of an index family
+\* (three index families = part "index": the first of them makes the model's index part durable, the others
+\* stutter), the series family = part "series"; a flush cycle with nothing to flush commits nothing
+TIdxPrepare == Ev("IdxPrepare") /\ IdxPrepare
+TIdxCommit ==
+  /\ Ev("IdxCommit")
+  /\ IF Line.part = "index"
+       THEN IF idxPhase = "prepared" THEN IdxCommitA ELSE (idxPhase = "half" /\ UNCHANGED vars)
+       ELSE \* the series family: only after the index families (an empty index part commits nothing)
+            IF idxPhase = "prepared" THEN (iIdx = {} /\ IdxCommitBoth) ELSE IdxCommitB
+TIdxDone ==
+  /\ Ev("IdxDone")
+  /\ IF idxPhase = "prepared" THEN (iIdx = {} /\ iSer = {} /\ IdxCommitBoth)
+     ELSE IF idxPhase = "half" THEN (iSer = {} /\ IdxCommitB)
+     ELSE UNCHANGED vars
+TStutter == Ev("Note") /\ UNCHANGED vars
 
 TProj ==
   /\ Ev("Proj")
@@ -51,12 +67,13 @@ TFinal ==
   /\ \A i \in 1..Len(Line.entries) :
        LET e == Line.entries[i]  s == e[1]  n == wal[s + 1] IN
        /\ e[2] = (IF n \in DOMAIN AllDict THEN 1 ELSE 0)
-       /\ e[3] = (IF n \in DOMAIN AllDict
+       \* ... counted only for the series that the shard index finds by metric and by tag
+       /\ e[3] = (IF n \in DOMAIN AllDict /\ n \in AllIdx
                     THEN Cardinality({b \in dFiles : b.seq = s /\ b.id = AllDict[n]}) ELSE 0)
   /\ UNCHANGED vars
 
 TraceNext == TReset \/ TAppend \/ TReplicaStep \/ TRBegin \/ TRWrite \/ TRCommit \/ TMetaFlush \/ TFamilyCommit \/ TFamilyAck \/ TCrash \/ TRecover \/ TLogRollback
-             \/ TSyncGC \/ TStutter \/ TProj \/ TFinal
+             \/ TSyncGC \/ TIdxPrepare \/ TIdxCommit \/ TIdxDone \/ TStutter \/ TProj \/ TFinal
 TraceSpec == TraceInit /\ [][TraceNext]_tvars
 HighWater == TLCSet(1, IF l > TLCGet(1) THEN l ELSE TLCGet(1))
 TraceAccepted ==
